@@ -1,5 +1,6 @@
 import Pxv.Driver.Util
 import Pxv.Model.Bp
+import Pxv.Model.Generate
 import Pxv.Driver.Attr
 open Lean Pxv.Driver
 
@@ -216,7 +217,10 @@ def handleBp (j : Json) : Json :=
   match (getVal? j "bp").bind bp? with
   | none => Json.mkObj [("r", "bad-op")]
   | some bp =>
-    Json.mkObj [("r", "ok"), ("schema", (renumber (schemaJ (run bp)) []).1), ("stable", true)]
+    Json.mkObj [("r", "ok"), ("schema", (renumber (schemaJ (run bp)) []).1), ("stable", true),
+      -- `Blueprint::persist` = `persist_if_changed`: a file with other bytes (of any length) is replaced
+      -- (Pxv.Gen.persistIfChanged_result); evaluated here on a same-length stale file
+      ("overwrites_stale", (((Pxv.Gen.persistIfChanged (Pxv.Gen.FS.ofList [("bp.ron", ⟨[1, 2, 4], 1⟩)]) "bp.ron" [1, 2, 3]).get "bp.ron").map (·.bytes)) == some [1, 2, 3])]
 
 end Pxv.Bp
 
